@@ -1,4 +1,5 @@
 import CookModel.Analysis.Collector
+import CookModel.Analysis.FrontMatter
 import CookModel.Lemmas.Determinism
 import CookModel.Lemmas.DeterminismLocs
 import CookModel.Props.C16
@@ -336,5 +337,132 @@ theorem C18_real_fold_order_irrelevant_real (base : Env) (tbl' : List (Char × L
     beyond key uniqueness, so adding or removing a unit in `units.toml` does not touch these statements) -/
 example : unitKeyTable.Perm unitKeyTable.reverse := (List.reverse_perm _).symm
 example : realFoldAssoc.Perm realFoldAssoc.reverse := (List.reverse_perm _).symm
+
+-- ===== w7reauditC =====
+/-! ### a whole PROCESS: several parser instances, the front matter interpreted
+
+    Seed audit (notes/audit-C18.md, "Seed audit"): the instance model above has ONE parser whose reply is the result of
+    the fold with the YAML slice handed over uninterpreted.  Two families of hidden state are therefore not even
+    expressible in it: (a) a memo inside `process_frontmatter` (map and servings of the last front matter, without its
+    diagnostics — seeded C18-4): the front-matter diagnostics, the stored mapping and the servings are not part of
+    `AnalysisResult`; (b) process-wide or per-thread state that one parser leaves for ANOTHER parser with a different
+    converter (unit initials of the first converter seen — C18-5; a unit memo keyed by the converter's address — C18-8;
+    a sticky fallback — C18-6).  The process model below has any number of parsers, each with its own environment
+    (`Env`: tables, extensions, converter; `FM.Env`: YAML decoder, validator, converter as `check_std_entry` sees it),
+    one process-wide mutable field (`tableBuilt`, as before) and replies that carry everything a caller sees. -/
+
+/-- everything a caller sees of one call, front matter interpreted: the result of the fold, the WHOLE report
+    (`FM.fullDiags`: the diagnostics of `process_frontmatter` first), and of the output the metadata map
+    (`content.metadata.map`) and the servings (`content.data`) -/
+structure FullReply (α : Type) where
+  result : AnalysisResult α
+  report : Array Diag
+  metadata : Option (List (SM.Y × SM.Y))
+  servings : Option (Option (List Nat))
+
+/-- a result of the fold as the caller sees it, `fe` = what `process_frontmatter` depends on -/
+def fullReplyOf (fe : FM.Env α) (x : AnalysisResult α) : FullReply α :=
+  ⟨x, FM.fullDiags fe x, x.output.map (FM.fullMetadata fe), x.output.map (FM.fullServings fe)⟩
+
+def fullReply (env : Env) (fe : FM.Env α) : Req → FullReply α
+  | .parse x => fullReplyOf fe (parseRecipe env x)
+  | .parseMeta x => fullReplyOf fe (parseMetadata env x)
+
+/-- a process: its parser instances and the process-wide lazily built table -/
+structure Process (α : Type) where
+  parsers : List (Env × FM.Env α)
+  tableBuilt : Bool
+
+/-- one call on parser number `k` (`none`: there is no such parser) -/
+def Process.serve (p : Process α) (k : Nat) (r : Req) : Process α × Option (FullReply α) :=
+  ({ p with tableBuilt := true }, p.parsers[k]?.map (fun e => fullReply e.1 e.2 r))
+
+/-- a history of calls on any of the parsers -/
+def Process.run (p : Process α) : List (Nat × Req) → Process α
+  | [] => p
+  | c :: cs => Process.run ((p.serve c.1 c.2).1) cs
+
+theorem Process.run_parsers (p : Process α) (h : List (Nat × Req)) : (p.run h).parsers = p.parsers := by
+  induction h generalizing p with
+  | nil => rfl
+  | cons c cs ih => simp [Process.run, ih, Process.serve]
+
+/-- a schedule entry: which logical thread asks which parser what -/
+structure PCall where
+  thread : Nat
+  parser : Nat
+  req : Req
+
+/-- an interleaved schedule on one process: the replies in schedule order -/
+def Process.schedule (p : Process α) : List PCall → List (Nat × Option (FullReply α))
+  | [] => []
+  | c :: cs => (c.thread, (p.serve c.parser c.req).2) :: Process.schedule ((p.serve c.parser c.req).1) cs
+
+theorem Process.schedule_eq (p : Process α) (cs : List PCall) :
+    p.schedule cs = cs.map (fun c => (c.thread, p.parsers[c.parser]?.map (fun e => fullReply e.1 e.2 c.req))) := by
+  induction cs generalizing p with
+  | nil => rfl
+  | cons c cs ih =>
+    simp only [Process.schedule, List.map_cons]
+    rw [ih]
+    simp [Process.serve]
+
+/-- **Parser instances of one process do not influence each other**, and the front matter is part of the reply.
+    After ANY history of `parse` / `parse_metadata` calls on ANY of the parsers of a process (different extension
+    sets, different converters, different decoders / validators), the reply of parser `k` to a request — result,
+    whole report with the front-matter diagnostics, metadata map, servings — is the reply of a fresh process that
+    has only that parser and has served nothing.  A wrong implementation this excludes: state that the analysis of
+    one parser leaves behind for another (a table built from the first converter seen, a memo keyed by something
+    two converters can share), and a memo in `process_frontmatter` that restores map and servings but not the
+    diagnostics. -/
+theorem C18_instances_independent (p : Process α) (h : List (Nat × Req)) (k : Nat) (r : Req) (e : Env × FM.Env α)
+    (hk : p.parsers[k]? = some e) :
+    ((p.run h).serve k r).2 = ((⟨[e], false⟩ : Process α).serve 0 r).2 ∧
+    ((p.run h).serve k r).2 = some (fullReply e.1 e.2 r) := by
+  simp [Process.serve, Process.run_parsers, hk]
+
+/-- one parser, front matter interpreted: the reply (with the front-matter diagnostics, the stored mapping and the
+    servings) to a request after any history of requests is the reply of a fresh instance, and asking twice gives
+    the same reply twice -/
+theorem C18_history_independent_interpreted (env : Env) (fe : FM.Env α) (b : Bool) (h : List Req) (r : Req) :
+    (((⟨[(env, fe)], b⟩ : Process α).run (h.map (fun q => (0, q)))).serve 0 r).2 = some (fullReply env fe r) ∧
+    ((((⟨[(env, fe)], b⟩ : Process α).serve 0 r).1).serve 0 r).2 = ((⟨[(env, fe)], b⟩ : Process α).serve 0 r).2 := by
+  simp [Process.serve, Process.run_parsers]
+
+/-- any interleaving of the calls of several logical threads on the parsers of one process gives every thread the
+    replies it would get alone from fresh parsers: the replies a thread sees depend only on its own requests and on
+    the environment of the parser it asks -/
+theorem C18_interleaving_irrelevant_interpreted (p : Process α) (cs : List PCall) (t : Nat) :
+    ((p.schedule cs).filter (fun x => x.1 == t)).map (·.2) =
+    (cs.filter (fun c => c.thread == t)).map (fun c => p.parsers[c.parser]?.map (fun e => fullReply e.1 e.2 c.req)) := by
+  rw [Process.schedule_eq]
+  induction cs with
+  | nil => rfl
+  | cons c cs ih =>
+    simp only [List.map_cons, List.filter_cons]
+    by_cases h : c.thread == t <;> simp [h, ih]
+
+/-! non-vacuity: a process with two parsers whose decoders differ (the first reads the slice as `{a: 1}`, the second
+    reports a YAML error); on `---⏎a: 1⏎---⏎` the first parser's report is empty and its map has one entry, the
+    second parser's report is the YAML error and its map is empty — so the replies of the theorem really carry the
+    front-matter part and really depend on the parser asked. -/
+private def C18_w7Cs : CharSpec :=
+  ⟨fun c => c == ' ', fun _ => false, fun c => c == 'x', fun c => c == ' ' || c == '\n', fun c => c == 'x'⟩
+private def C18_w7Env : Env := ⟨C18_w7Cs, ⟨0⟩, fun _ => none, fun _ _ => .ok, fun c => [c], 0⟩
+private def C18_w7FeOk : FM.Env Rat :=
+  ⟨fun _ => .ok [(.str "a".toList, .num ⟨some 1, "1".toList⟩)], none, ⟨[], fun _ => none⟩, fun _ => false⟩
+private def C18_w7FeErr : FM.Env Rat := ⟨fun _ => .err none, none, ⟨[], fun _ => none⟩, fun _ => false⟩
+private def C18_w7Proc : Process Rat := ⟨[(C18_w7Env, C18_w7FeOk), (C18_w7Env, C18_w7FeErr)], false⟩
+private def C18_w7Input : Str := "---\na: 1\n---\n".toList
+
+example : C18_w7Proc.parsers[1]? = some (C18_w7Env, C18_w7FeErr) := rfl
+/-- the front-matter part of the two parsers' replies on that input (the slice `a: 1⏎` at offset 4) -/
+example : ((FM.processFrontmatter C18_w7FeOk (Text.fromStr "a: 1\n".toList 4)).diags.length,
+           (FM.processFrontmatter C18_w7FeOk (Text.fromStr "a: 1\n".toList 4)).map.map List.length) = (0, some 1) ∧
+          ((FM.processFrontmatter C18_w7FeErr (Text.fromStr "a: 1\n".toList 4)).diags.map (·.kind),
+           (FM.processFrontmatter C18_w7FeErr (Text.fromStr "a: 1\n".toList 4)).map.map List.length) =
+            (["yaml-error"], none) := by decide
+example : parseFrontmatter C18_w7Cs C18_w7Input = some ⟨"a: 1\n".toList, 4, [], 13⟩ := by rfl
+-- ===== end w7reauditC =====
 
 end Cook
